@@ -352,3 +352,13 @@ Definition xlsx_content_type (lower : str -> str) (tbl : list (str * str)) (imag
   let filename := after_last SLASH image_path in
   let ext := if existsb (N.eqb DOT) filename then lower (after_last DOT filename) else [] in
   match assoc ext tbl with Some v => v | None => s "image/unknown" end.
+
+(* variant with fixes/proposed-not-applied/C14-content-type-from-bytes.patch: when the table does not know the extension
+   the image signature decides (detect_image_type(data): an oracle value here), else the old default *)
+Definition ooxml_content_type_b (lower : str -> str) (tbl : list (str * str)) (sniffed : option str) (target : str) : str :=
+  let ext := lower (after_last DOT target) in
+  match assoc ext tbl with Some v => v | None => match sniffed with Some c => c | None => s "image/" ++ ext end end.
+Definition xlsx_content_type_b (lower : str -> str) (tbl : list (str * str)) (sniffed : option str) (image_path : str) : str :=
+  let filename := after_last SLASH image_path in
+  let ext := if existsb (N.eqb DOT) filename then lower (after_last DOT filename) else [] in
+  match assoc ext tbl with Some v => v | None => match sniffed with Some c => c | None => s "image/unknown" end end.
